@@ -568,7 +568,7 @@ fn cfg_items(thorough: bool) -> Vec<Item> {
     for profile in tables::PROFILES {
         for &n in &sizes {
             let keep = if thorough {
-                n <= SMALL_MAX || structural.contains(&profile)
+                n <= SMALL_MAX || profile == "unique"
             } else {
                 (profile == "plain" && n <= SMALL_MAX) || (profile == "unique" && [8usize, 13, 1025, 2049].contains(&n))
             };
@@ -624,7 +624,7 @@ fn sched_plan(thorough: bool) -> SchedPlan {
     }
     if thorough {
         // 4 workers x 6 morsels (the last one short): 4^6 assignments x 4! completion orders per chain
-        for chain in ["sort1", "agg-group"] {
+        for chain in ["agg-group"] {
             push_canon("unique", 11, 2, chain, 4);
         }
     }
@@ -634,7 +634,7 @@ fn sched_plan(thorough: bool) -> SchedPlan {
     for (w, m) in &inter_shapes {
         let all = sched::all_interleavings(*w, *m);
         inter_sizes.push(json!({"workers": w, "morsels": m, "release_sequences": all.len()}));
-        for chain in chains.iter().filter(|c| !thorough || ["sort1", "distinct", "agg-group", "sort1>limit:2"].contains(*c)) {
+        for chain in chains.iter().filter(|c| !thorough || (all.len() > 5000 && ["sort1", "agg-group"].contains(*c)) || (all.len() <= 5000 && ["sort1", "distinct", "agg-group", "sort1>limit:2"].contains(*c))) {
             for block in all.chunks(32) {
                 interleavings += block.len() as u64;
                 units.push(BUnit { profile: "plain".into(), n: 2 * m, morsel: 2, chain: chain.to_string(), workers: *w, mode: "interleavings".into(), schedules: block.to_vec() });
@@ -1003,7 +1003,7 @@ fn run(args: vcore::Args) -> i32 {
             "merge_helper_max_len": tier.pick(json!({"sorted": 4, "accumulator": 4, "distinct": 4}), json!({"sorted": 6, "accumulator": 6, "distinct": 5})), "merge_runs": 3,
             "morsel_cover": tier.pick("total 0..40 x morsel size 0..41", "total 0..80 x morsel size 0..81"), "scheduler_api": tier.pick("workers 1..3 x morsels 0..4 x every placement (global/local queue) x every get_work order x NUMA on/off", "workers 1..4 x morsels 0..4 x ..."),
             "schedule_chains": plan.chains,
-            "schedule_shapes_canonical": if thorough { "workers 1..3 x 4 morsels (9 chains x 3 tables); 4 workers x 6 morsels (sort1, agg-group on unique/11)" } else { "workers 1..3 x 4 morsels" },
+            "schedule_shapes_canonical": if thorough { "workers 1..3 x 4 morsels (9 chains x 3 tables); 4 workers x 6 morsels (agg-group on unique/11)" } else { "workers 1..3 x 4 morsels" },
             "schedule_interleavings": plan.inter_sizes,
         }),
     );
